@@ -40,7 +40,10 @@ TOKEN = st.one_of(
     st.sampled_from(["", " ", "#", "a#b", "#7", "--tag=#7", "it's", 'say "hi"', "a\\b", "$HOME", "*.txt", "a b", "x\ny", "é✓", "\\", "''", '""']),
 )
 STYLE = st.sampled_from(["single", "double", "bare", "mixed"])
-NAME = st.from_regex(r"[\w.-]{1,16}", fullmatch=True).filter(lambda s: s.strip() == s and s not in (".", "..") and "\n" not in s)
+_PLAIN_NAME = st.from_regex(r"[\w.-]{1,16}", fullmatch=True).filter(lambda s: s.strip() == s and s not in (".", "..") and "\n" not in s)
+# legal names that look like something else to a careless reader of the CSV / JSON files
+NAME = st.one_of(_PLAIN_NAME, _PLAIN_NAME, _PLAIN_NAME, _PLAIN_NAME, _PLAIN_NAME, _PLAIN_NAME, _PLAIN_NAME,
+                 st.sampled_from(["None", "none", "null", "nan", "NaN", "True", "false", "0", "-1", "1e5", "name", "inf"]))
 
 
 def strategy(tier):
